@@ -398,6 +398,10 @@ func shapeC20(c *Ctx, cn *types.Func) {
 			c.Bad("C20.shape", key, ix.Pos(), "result indexed by something other than i+offset")
 			return
 		}
+		if f.inRange[ip] == "" {
+			c.Unk("C20.shape", key, ix.Pos(), "the index is not the key of a range over a slice this rule knows (it may come from a list of indices collected earlier)")
+			return
+		}
 		if f.inRange[ip] != lenOfPath {
 			c.Bad("C20.shape", key, ix.Pos(), "the index ranges over "+f.inRange[ip]+", not over the expanded column list "+lenOfPath+" the result was sized for: columns shift")
 			return
@@ -599,8 +603,20 @@ func suffixC20(c *Ctx, cn *types.Func) {
 	}
 	for i, cand := range cands {
 		key := fmt.Sprintf("(*SelectStatement).ColumnNames: candidate #%d looked up", i+1)
+		handedOn := false
+		if refs := cand.Referrers(); refs != nil {
+			for _, r := range *refs {
+				if call, ok := r.(*ssa.Call); ok {
+					if _, isBuiltin := call.Call.Value.(*ssa.Builtin); !isBuiltin {
+						handedOn = true
+					}
+				}
+			}
+		}
 		if lookedUp(cand) {
 			c.OK("C20.taken", key, cand.Pos(), "tested against the map of taken names")
+		} else if handedOn {
+			c.Unk("C20.taken", key, cand.Pos(), "the generated name is handed to a function (a local `taken` helper?) rather than looked up here; that function is not followed")
 		} else {
 			c.Bad("C20.taken", key, cand.Pos(), "the generated name is not looked up in the map of taken names: it can coincide with an alias that is registered there")
 		}
